@@ -548,7 +548,7 @@ non-trivial = the sequence writes to an object after another object was derived 
     }
 
     fn cases_per_worker(tier: Tier) -> u32 {
-        tier.pick(4000, 30_000)
+        tier.pick(4000, 80_000)
     }
 
     fn strategy(_tier: Tier) -> BoxedStrategy<Case> {
